@@ -46,7 +46,7 @@ const (
 	SET_STATEMENT_SYNTAX                 = "set-statement/syntax"
 	OPERATOR_ASSIGNMENT                  = "operator/assignment"
 	UNSET_STATEMENT_SYNTAX               = "unset-statement/syntax"
-	REMOVE_STATEMENT_SYNTAX              = "remote-statement/syntax"
+	REMOVE_STATEMENT_SYNTAX              = "remove-statement/syntax"
 	OPERATOR_CONDITIONAL                 = "operator/conditional"
 	RESTART_STATEMENT_SCOPE              = "restart-statement/scope"
 	ADD_STATEMENT_SYNTAX                 = "add-statement/syntax"
